@@ -133,6 +133,32 @@ Definition tok_increase_allowance (t : token) (owner spender : addr) (n : N) : r
                 (t_supply t) (t_minter t) (t_decimals t))
   else Err Panic.
 
+(* BurnFrom: deduct_allowance, then lower the owner's balance and the total supply (allowances.rs;
+   no zero-amount check there, exactly as in TransferFrom) *)
+Definition tok_burn_from (t : token) (spender owner : addr) (n : N) : res token :=
+  match t_allow t owner spender with
+  | None => Err EStd
+  | Some al =>
+      if n <=? al then
+        let t0 := mkToken (t_bal t) (fun o s => if (o =? owner) && (s =? spender) then Some (al - n) else t_allow t o s)
+                          (t_supply t) (t_minter t) (t_decimals t) in
+        let* t1 := tok_debit t0 owner n in
+        if n <=? t_supply t1 then Ok (mkToken (t_bal t1) (t_allow t1) (t_supply t1 - n) (t_minter t1) (t_decimals t1))
+        else Err EStd
+      else Err EStd
+  end.
+(* DecreaseAllowance by [owner]: ALLOWANCES.load fails when there is no entry; the entry is removed
+   when the amount reaches the allowance, reduced otherwise *)
+Definition tok_decrease_allowance (t : token) (owner spender : addr) (n : N) : res token :=
+  if spender =? owner then Err EStd else
+  match t_allow t owner spender with
+  | None => Err EStd
+  | Some al =>
+      Ok (mkToken (t_bal t)
+                  (fun o s => if (o =? owner) && (s =? spender) then (if n <? al then Some (al - n) else None) else t_allow t o s)
+                  (t_supply t) (t_minter t) (t_decimals t))
+  end.
+
 (* run a cw20 operation on the token contract at [ta] *)
 Definition with_token (w : world) (ta : addr) (f : token -> res token) : res world :=
   match w_tokens w ta with
@@ -422,6 +448,21 @@ Definition cw20_send (w : world) (ta : addr) (sender : addr) (target : addr) (am
       else Err EStd
   end.
 
+(* ---- cw20 SendFrom: TransferFrom's ledger part, then Receive on the target with
+   Cw20ReceiveMsg.sender = the spender (info.sender), not the owner ---- *)
+Definition cw20_send_from (w : world) (ta : addr) (spender owner : addr) (target : addr) (amount : N) (h : hook) : res world :=
+  let* w1 := with_token w ta (fun t => tok_transfer_from t spender owner target amount) in
+  match w_pairs w1 target with
+  | Some ps => pair_receive w1 target ps ta [] spender amount h
+  | None =>
+      if target =? w_rtr w1 then
+        match h with
+        | HRouterOps ops m to => router_exec_ops w1 spender ops m to
+        | _ => Err EStd
+        end
+      else Err EStd
+  end.
+
 (* ---- user-level transactions ---- *)
 Inductive op : Type :=
 | OBankSend (from to : addr) (coins : list coin)
@@ -443,7 +484,10 @@ Inductive op : Type :=
 | OFacUpdateConfig (caller : addr) (new_owner : option addr)
 | OFacCreatePair (caller : addr) (a0 a1 : asset) (wl : list addr) (min0 min1 : N) (comm lpdec : option N)
 | OFacAddNative (caller : addr) (dn : denom) (k : N)
-| OFacMigrate (caller : addr) (contract : addr).
+| OFacMigrate (caller : addr) (contract : addr)
+| OSendFrom (ta spender owner target : addr) (n : N) (h : hook)
+| OBurnFrom (ta spender owner : addr) (n : N)
+| ODecreaseAllowance (ta owner spender : addr) (n : N).
 
 Definition exec (w : world) (o : op) : res world :=
   match o with
@@ -494,6 +538,9 @@ Definition exec (w : world) (o : op) : res world :=
   | OFacCreatePair caller a0 a1 wl m0 m1 c ld => fac_create_pair w caller a0 a1 wl m0 m1 c ld
   | OFacAddNative caller dn k => fac_add_native w caller dn k
   | OFacMigrate caller c => fac_migrate_pair w caller c
+  | OSendFrom ta sp ow target n h => cw20_send_from w ta sp ow target n h
+  | OBurnFrom ta sp ow n => with_token w ta (fun t => tok_burn_from t sp ow n)
+  | ODecreaseAllowance ta ow sp n => with_token w ta (fun t => tok_decrease_allowance t ow sp n)
   end.
 
 (* a failed transaction changes nothing *)
